@@ -35,7 +35,7 @@ Kinds == {
   K("ptr-struct", "record"), K("ptr-ptr-ptr-struct", "record"), K("ptr-map-any", "record"), K("ptr-int", "coerce"),
   K("bool", "coerce"), K("int", "coerce"), K("int8", "coerce"), K("uint64-max", "coerce"), K("float-nan", "coerce"), K("float-inf", "coerce"),
   K("complex", "coerce"), K("string", "coerce"), K("string-invalid-utf8", "coerce"), K("string-long", "coerce"), K("bytes", "coerce"),
-  K("array", "coerce"), K("slice-any", "coerce"), K("slice-int", "coerce"), K("slice-nil-typed", "coerce"), K("named-slice", "coerce"),
+  K("array", "coerce"), K("slice-any", "coerce"), K("slice-any-long", "coerce"), K("slice-int", "coerce"), K("slice-nil-typed", "coerce"), K("named-slice", "coerce"),
   \* typed-nil values of types with methods (Stringer, error), as values and as members of records; non-ASCII text
   K("nil-ptr-stringer", "empty"), K("nil-ptr-error", "empty"), K("stringer-value", "coerce"), K("string-non-ascii", "coerce"),
   K("map-nil-stringer-elems", "record"), K("struct-nil-stringer-fields", "record"),
